@@ -16,6 +16,13 @@ Theorem admissible_b_spec : forall (v : nview) (ps : list pod), eff_wf (v_eff v)
 Proof. exact admissible_b_spec_l. Qed.
 Print Assumptions admissible_b_spec.
 
+(* ... with volumes: volume-zone alternatives and CSI attach limits *)
+Theorem admissible_vb_spec : forall (v : nview) (vlimits : list (string * Z)) (ps : list vpod), eff_wf (v_eff v) ->
+  Forall (fun vp : vpod => pod_valid (fst vp) /\ vinfo_valid (snd vp)) ps ->
+  (admissible_vb v vlimits ps = true <-> admissible_v v vlimits ps).
+Proof. exact admissible_vb_spec_l. Qed.
+Print Assumptions admissible_vb_spec.
+
 (* "`key op values` holds for every label the node may get" is decided exactly, for every requirement
    (any exclusion list, any int64 bounds) and every operator *)
 Theorem label_quantifier_decided : forall (e : req) (o : oper) (vs : list string), wf e -> valid_args o vs = true ->
@@ -46,9 +53,9 @@ Print Assumptions port_check_covers_k8s.
 (* every value a pod's requirement admits for the (normalised) key of a constraint satisfies that constraint: node
    selector and first required term *)
 Theorem pod_requirements_sound : forall (all : bool) (p : pod),
-  (forall k val v, List.In (k, val) (p_sel p) -> has (get (pod_reqs all p) (nk k)) v = true -> k8s_match In [val] (Some v) = true) /\
+  (forall k val v, List.In (k, val) (p_sel p) -> has (get (pod_reqs all p) k) v = true -> k8s_match In [val] (Some v) = true) /\
   (forall t rest, p_req p = t :: rest -> valid_term t ->
-     forall k o vs v, List.In (k, o, vs) t -> has (get (pod_reqs all p) (nk k)) v = true -> k8s_match o vs (Some v) = true).
+     forall k o vs v, List.In (k, o, vs) t -> has (get (pod_reqs all p) k) v = true -> k8s_match o vs (Some v) = true).
 Proof. exact pod_reqs_sound. Qed.
 Print Assumptions pod_requirements_sound.
 
@@ -64,6 +71,11 @@ Theorem filter_sound : forall wk cat elig r who ports groups total relax rem uns
 Proof. exact filter_its_sound. Qed.
 Print Assumptions filter_sound.
 
+(* a pod without volume requirements: the general CanAdd (volume alternatives tried in order) is the plain one *)
+Theorem no_volumes_is_plain_step : forall wk cat all rx n p, nc_step_v wk cat all rx n p vi0 = nc_step wk cat all rx n p.
+Proof. exact nc_step_v_vi0. Qed.
+Print Assumptions no_volumes_is_plain_step.
+
 (* ---- NodeClaim: step invariant, over arbitrary op sequences (any queue order, relaxation state, minValues policy) ---- *)
 Theorem nc_step_preserves_inv : forall wk cat all rx n p,
   nc_wf n -> pod_wf p -> nc_inv wk cat n ->
@@ -78,9 +90,12 @@ Print Assumptions nc_step_preserves_inv.
    offering compatible with the claim's requirements whose allocatable holds the summed requests of all placed pods
    plus the daemon overhead.  (partial: the guard "the claim admits a value for the key" — see the refutation) *)
 Theorem nc_options_admissible_partial : forall wk cat all n0 ops,
-  nc_wf n0 -> nc_pods n0 = [] -> nc_requests n0 = [] -> Forall (fun op => pod_wf (fst op)) ops ->
-  let n := nc_exec wk cat all n0 ops in
-  (forall p, List.In p (nc_pods n) -> k8s_tolerated (nc_taints n) (p_tols p) /\ chosen_ok (nc_reqs n) p /\ valts_ok (nc_reqs n) p) /\
+  nc_wf n0 -> nc_pods n0 = [] -> nc_requests n0 = [] -> Forall (fun op : vpod * bool => pod_wf (fst (fst op))) ops ->
+  let n := fst (nc_exec_v wk cat all n0 [] ops) in
+  let placed := snd (nc_exec_v wk cat all n0 [] ops) in
+  map fst placed = nc_pods n /\
+  (forall vp, List.In vp placed ->
+     k8s_tolerated (nc_taints n) (p_tols (fst vp)) /\ chosen_ok (nc_reqs n) (fst vp) /\ valts_ok (nc_reqs n) (snd vp)) /\
   (nc_pods n <> [] -> forall name, List.In name (nc_its n) ->
      exists i g alloc offs o, List.In i cat /\ it_name i = name /\ List.In g (nc_groups n) /\ List.In name (dg_its g) /\
        List.In (alloc, offs) (it_groups i) /\ List.In o offs /\ compatible wk (nc_reqs n) o = true /\
@@ -103,19 +118,27 @@ Qed.
 Print Assumptions nc_absent_label_refuted.
 
 (* ---- ExistingNode ---- *)
-Theorem ex_step_preserves_inv : forall all rem0 vols0 n p, pod_wf p -> ex_inv rem0 vols0 n -> ex_inv rem0 vols0 (fst (ex_step all n p)).
-Proof. exact ex_step_preserves. Qed.
+Theorem ex_step_preserves_inv : forall all rem0 vols0 vn placed p vi, pod_wf p -> ex_inv_v rem0 vols0 vn placed ->
+  match ex_step_v all vn p vi with
+  | (vn', Ok _) => ex_inv_v rem0 vols0 vn' (placed ++ [(p, vi)])
+  | (vn', Err _) => vn' = vn
+  end.
+Proof. exact ex_step_v_preserves. Qed.
 Print Assumptions ex_step_preserves_inv.
 
-(* over any sequence of attempts the pods placed on an existing node stay within what was left for them, the distinct
-   volumes per CSI driver (already attached + placed) stay within the CSINode attach limits, and every placed pod has
-   a volume-topology alternative that admits whatever the node's requirements admit *)
-Theorem ex_requests_and_volumes_within_limits : forall all ops n0,
-  Forall pod_wf ops -> en_pods n0 = [] -> (forall k, 0 <= rget k (en_remaining n0)) ->
-  let n := ex_exec all n0 ops in
-  (forall k, rsum (map p_requests (en_pods n)) k <= rget k (en_remaining n0)) /\
-  (en_pods n <> [] -> forall d l, List.In (d, l) (en_vlimits n0) -> vcount d (en_vols n0 ++ flat_map p_vols (en_pods n)) <= l) /\
-  (forall p, List.In p (en_pods n) -> valts_ok (en_reqs n) p).
+(* over any sequence of attempts: the pods placed on an existing node stay within what was left for them; the distinct
+   volumes per CSI driver (already attached + placed) stay within the CSINode attach limits; every placed pod tolerates
+   the taints, its selector / required term hold for every label value the node's requirements admit, and it keeps a
+   volume-topology alternative that admits whatever the node's requirements admit *)
+Theorem ex_requests_and_volumes_within_limits : forall all ops vn0,
+  Forall (fun vp : vpod => pod_wf (fst vp)) ops -> en_pods (ve_node vn0) = [] -> (forall k, 0 <= rget k (en_remaining (ve_node vn0))) ->
+  let vn := fst (ex_exec_v all vn0 [] ops) in
+  let placed := snd (ex_exec_v all vn0 [] ops) in
+  map fst placed = en_pods (ve_node vn) /\
+  (forall k, rsum (map p_requests (map fst placed)) k <= rget k (en_remaining (ve_node vn0))) /\
+  (placed <> [] -> forall d l, List.In (d, l) (ve_vlimits vn0) -> vcount d (ve_vols vn0 ++ flat_map vi_vols (map snd placed)) <= l) /\
+  (forall vp, List.In vp placed -> k8s_tolerated (en_taints (ve_node vn)) (p_tols (fst vp)) /\
+                                    chosen_ok (en_reqs (ve_node vn)) (fst vp) /\ valts_ok (en_reqs (ve_node vn)) (snd vp)).
 Proof. exact ex_resources_l. Qed.
 Print Assumptions ex_requests_and_volumes_within_limits.
 
@@ -136,22 +159,22 @@ Print Assumptions ex_labels_refuted.
 Theorem ex_daemon_ports_refuted :
   exists all n labels alloc p d,
     map p_key (en_pods (ex_exec all n [p])) = [p_key p] /\
-    existing_admissible_b labels (en_taints n) alloc [] [] [p] [d] = false.
+    existing_admissible_b labels (en_taints n) alloc [] [p] [d] = false.
 Proof. exists true, f12_node, [("zone", "z1")], [("cpu", 4000)], f13_pod, f13_daemon. exact f13_accepted. Qed.
 Print Assumptions ex_daemon_ports_refuted.
 
 (* ---- pairwise host-port invariant over arbitrary op sequences (distinct pods) ---- *)
 (* existing node: no two placed pods, nor a placed pod and anything reserved on the node (bound pods), share a
    host-port triple in Kubernetes' sense *)
-Theorem ex_ports_pairwise : forall all ops n0,
-  NoDup (map p_key ops) -> en_pods n0 = [] -> usage_ok (en_ports n0) ->
-  let n := ex_exec all n0 ops in
+Theorem ex_ports_pairwise : forall all ops vn0,
+  NoDup (map (fun vp : vpod => p_key (fst vp)) ops) -> en_pods (ve_node vn0) = [] -> usage_ok (en_ports (ve_node vn0)) ->
+  let n := ve_node (fst (ex_exec_v all vn0 [] ops)) in
   (forall p q a b, List.In p (en_pods n) -> List.In q (en_pods n) -> p_key p <> p_key q ->
      List.In a (p_ports p) -> List.In b (p_ports q) -> ~ k8s_port_clash a b) /\
   (forall p k ps a b, List.In p (en_pods n) -> List.In (k, ps) (en_ports n) -> k <> p_key p ->
      List.In a (p_ports p) -> List.In b ps -> ~ k8s_port_clash a b).
 Proof.
-  intros all ops n0 Hnd Hp Hu n. destruct (ex_ports_pairwise_l all ops n0 Hnd Hp Hu) as [H1 H2]. fold n in H1, H2. split.
+  intros all ops vn0 Hnd Hp Hu n. destruct (ex_ports_pairwise_l all ops vn0 Hnd Hp Hu) as [H1 H2]. fold n in H1, H2. split.
   - intros p q a b Hp' Hq Hne Ha Hb Hc. specialize (H1 p q a b Hp' Hq Hne Ha Hb). rewrite (k8s_clash_matches a b Hc) in H1. discriminate.
   - intros p k ps a b Hp' Hin Hne Ha Hb Hc. specialize (H2 p k ps a b Hp' Hin Hne Ha Hb). rewrite (k8s_clash_matches a b Hc) in H2. discriminate.
 Qed.
@@ -160,9 +183,9 @@ Print Assumptions ex_ports_pairwise.
 (* new claim: for every daemon-overhead group that still has a remaining instance type, no two pods of the claim, nor
    a pod and a daemon of that group, share a host-port triple *)
 Theorem nc_ports_pairwise : forall wk cat all ops n0,
-  NoDup (map (fun op : pod * bool => p_key (fst op)) ops) -> nc_pods n0 = [] ->
+  NoDup (map (fun op : vpod * bool => p_key (fst (fst op))) ops) -> nc_pods n0 = [] ->
   groups_disjoint (nc_groups n0) -> (forall g, List.In g (nc_groups n0) -> usage_ok (dg_ports g)) ->
-  let n := nc_exec wk cat all n0 ops in
+  let n := fst (nc_exec_v wk cat all n0 [] ops) in
   forall g, List.In g (nc_groups n) -> live n g ->
     (forall p q a b, List.In p (nc_pods n) -> List.In q (nc_pods n) -> p_key p <> p_key q ->
        List.In a (p_ports p) -> List.In b (p_ports q) -> ~ k8s_port_clash a b) /\
@@ -211,7 +234,7 @@ Example two_pods_narrow_the_options :
 Proof. exact example_two_pods. Qed.
 
 Example relaxation_chain :
-  let p := mkPod "p" [] [[("a", In, ["1"])]; [("b", In, ["2"])]] [(5, [("c", Exists, [])])] [] [] [("zone", true); ("host", false)] [] [] [] [] [] [] in
+  let p := mkPod "p" [] [[("a", In, ["1"])]; [("b", In, ["2"])]] [(5, [("c", Exists, [])])] [] [] [("zone", true); ("host", false)] [] [] [] in
   p_req (relax_n true 10 p) = [[("b", In, ["2"])]] /\ p_pref (relax_n true 10 p) = [] /\
   p_tsc (relax_n true 10 p) = [("host", false)] /\ p_tols (relax_n true 10 p) = [pns_toleration].
 Proof. exact example_relax. Qed.
